@@ -222,6 +222,28 @@ func run(c *hc.Ctx) error {
 			uint64(inner.PermAuthKeyID), uint64(inner.TempSessionID), uint32(int32(inner.ExpiresAt)))
 		add(fmt.Sprintf("unbind %s %s %s", hc.Hex(key[:]), hc.Hex(perm.ID[:]), hc.Hex(out)), fields, 1)
 	}
+	// ---- rand == nil: EncryptBindMessage falls back to crypto.DefaultRand(); the output cannot be predicted
+	// but must still decrypt under the permanent key to the bound values (monitor only)
+	for i := c.N(60, 2000); i > 0; i-- {
+		key := c04shared.GenKey(r)
+		perm := key.WithID()
+		if perm.Zero() {
+			continue
+		}
+		inner := &crypto.BindAuthKeyInner{Nonce: int64(r.U64()), TempAuthKeyID: int64(r.U64()), PermAuthKeyID: int64(r.U64()),
+			TempSessionID: int64(r.U64()), ExpiresAt: int(int32(r.U64()))}
+		msgID := int64(r.U64())
+		out, err := crypto.EncryptBindMessage(nil, perm, msgID, inner)
+		line := fmt.Sprintf("bind(rand=nil) key %s msgID %d inner %+v", hc.Hex(key[:]), msgID, *inner)
+		c.Count("op.EncryptBindMessage(rand=nil)")
+		if err != nil {
+			c.Fail("bind-error", line, err.Error())
+			continue
+		}
+		if detail := bindMonitor(out, key, perm.ID, msgID, inner); detail != "" {
+			c.Fail("bind-does-not-decrypt", line, detail)
+		}
+	}
 	rt.Verify(c)
 	// ---- the same APIs used from 2..4 goroutines at once (each with its own random reader; the
 	// functions are pure apart from their arguments): results checked by the monitor immediately and
